@@ -153,14 +153,20 @@ def generate_escape(api):
         # --- usvg writer.rs: replacements applied before xmlwriter
         ws = re.sub(r"//[^\n]*", "", api.rd(REL))
         sites = []
-        for m in re.finditer(r"(\w+)\.replace\(\s*'((?:\\.|[^'])+)'\s*,\s*\"([^\"]*)\"\s*\)", ws):
+        ncalls = 0
+        call_re = r"\.replace\(\s*'((?:\\.|[^'])+)'\s*,\s*\"([^\"]*)\"\s*\)"
+        # a receiver followed by one or more chained `.replace(char, str)` calls: applied left to right
+        call_nc = r"\.replace\(\s*'(?:\\.|[^'])+'\s*,\s*\"[^\"]*\"\s*\)"      # the same, without groups
+        for m in re.finditer(r"(\w+)((?:%s)+)" % call_nc, ws):
             line = ws[ws.rfind('\n', 0, m.start()) + 1:ws.find('\n', m.end())]
             ctx = 'text' if re.search(r"write_text\(", line) else ('attribute' if 'write_attribute' in line or 'write_svg_attribute' in line else 'other')
-            cb = _bytes_lit(m.group(2))
-            if len(cb) != 1:
-                raise api.Unsupported("writer.rs: replace of a non-ASCII char")
-            sites.append((ctx, m.group(1), cb[0], _bytes_lit(m.group(3))))
-        if ws.count('.replace(') != len(sites):
+            for c in re.finditer(call_re, m.group(2)):
+                cb = _bytes_lit(c.group(1))
+                if len(cb) != 1:
+                    raise api.Unsupported("writer.rs: replace of a non-ASCII char")
+                sites.append((ctx, m.group(1), cb[0], _bytes_lit(c.group(2))))
+                ncalls += 1
+        if ws.count('.replace(') != ncalls:
             raise api.Unsupported("writer.rs: a `.replace(` call the translator does not understand")
         out = [api.HEADER, "From Coq Require Import NArith List String.\nImport ListNotations.\nLocal Open Scope N_scope.\n",
                "(* xmlwriter %s :: escape_attribute_value: (byte searched for, bytes spliced in, `start = i + n`) per use_single_quote *)" % ver,
